@@ -340,7 +340,9 @@ def r8_publication_fanout(ctx):
     ctx.floor("C02.R8.paths", okp + len(ctx.violations), 1)
 
 
-RULES = [r1_pairing_after_yield, r2_gpu_cpu_lists, r_transfer_source, r4_consider_computable, r5_act, r6_worker_deferral,
+from .sched import r_no_downgrade  # noqa: E402
+
+RULES = [r_no_downgrade, r1_pairing_after_yield, r2_gpu_cpu_lists, r_transfer_source, r4_consider_computable, r5_act, r6_worker_deferral,
          r7_reidle, r8_publication_fanout, r_last_output_order]
 
 
@@ -409,3 +411,23 @@ def r9_executor_routing(ctx):
 
 
 RULES.append(r9_executor_routing)
+
+def r_store_before_announce(ctx):
+    """a dataset is announced on a host only once it is stored there (rule C07.R2, imported lazily)"""
+    from .C07 import r2_store_payload
+
+    r2_store_payload(ctx)
+
+
+RULES.append(r_store_before_announce)
+
+
+def r_message_dedup(ctx):
+    """a TaskSequence re-sent by the acknowledged-send layer reaches the worker once: listener duplicate detection (rules C06.R4/R5/R7, lazy import)"""
+    from .C06 import r4_r5_listener, r3_retry_and_ack
+
+    r4_r5_listener(ctx)
+    r3_retry_and_ack(ctx)
+
+
+RULES.append(r_message_dedup)
